@@ -2,6 +2,9 @@
 # usage: seed_round.sh <PID> <k> <store index>   — verify the sub-agent's change /tmp/mut-<PID>/out/<k> in that scratch worktree
 # (clean demo exits 0, patched demo exits 1, tests pass with the patch), run the check of <PID> against the patched worktree,
 # and store it as seeded/<PID>-<store index> with what was detected.  /repo itself is never touched.
+# NOTE: the Lean project is shared: the checks of C02 and C11 regenerate a table from the source they are pointed at, so never
+# run a C02 / C11 seed concurrently with any other check (a mutated LexerRules.lean breaks every build that imports the parser);
+# every check restores the tables it does not own before building (harness/main.py), which covers sequential runs only.
 P="$1"; K="$2"; N="$3"; W=/tmp/mut-$P; D=$W/out/$K
 cd "$W" || exit 2
 git checkout -q -- . 
